@@ -664,7 +664,8 @@ def _interpret_sanitizer(func, param, sample):
 
     def block(stmts):
         for stmt in stmts:
-            if isinstance(stmt, ast.Expr):
+            if isinstance(stmt, (ast.Expr, ast.Import, ast.ImportFrom,
+                                 ast.Pass)):
                 continue
             if isinstance(stmt, ast.If):
                 val = _eval_str_guard(stmt.test, env)
